@@ -57,16 +57,20 @@ theorem hash_full_fails :
       (applyFilter o (.cookie [⟨.delete, str "sid", []⟩]) ⟨f.key, .str (str "sid=S")⟩).val = .str (str "sid=S") :=
   ⟨wO, ⟨str "status", .other 0⟩, by decide⟩
 
-/-- FULL STATEMENT (false): the value of a `Set-Cookie` field of a response never reaches the access log
-    when credentials are not logged.  Refuted: a trailer field the upstream did not announce is copied by
-    reverse_proxy into the response header map under `http.TrailerPrefix + name` = `Trailer:Set-Cookie`
-    (reverseproxy.go finalizeResponse); `strings.ToLower("Trailer:Set-Cookie")` is none of the four names,
-    so `LoggableHTTPHeader` logs it as is.  (The provable part is `secret_absent_from_fields`, whose
-    hypothesis `OnlyInCreds … tResp` excludes exactly this.) -/
-theorem trailer_key_full_fails :
+/-- the header object as the code built it BEFORE fix 48df0ef (key test `strings.ToLower(key)`) -/
+def loggableHeaderOld (h : Hdr) : Hdr :=
+  h.map fun kv => (kv.1, if isCredOld kv.1 then redactedVal else kv.2)
+
+/-- Why the fix was needed (non-vacuity of the trailer clause of `Props.redacted_trailer_any_casing_any_count`):
+    a trailer field the upstream did not announce is copied by reverse_proxy into the response header map
+    under `http.TrailerPrefix + name` = `Trailer:Set-Cookie`; the OLD key test does not recognise it and the
+    old code logged the secret, the key test as it is now redacts it. -/
+theorem trailer_key_old_code_fails :
     ∃ (h : Hdr) (secret : Bytes), h = [(str "Trailer:Set-Cookie", [str "sid=" ++ secret])] ∧
-      isCred (str "Trailer:Set-Cookie") = false ∧ loggableHeader h false = h ∧
-      occurs secret ((loggableHeader h false).flatMap fun kv => kv.2).flatten = true :=
+      isCredOld (str "Trailer:Set-Cookie") = false ∧ loggableHeaderOld h = h ∧
+      occurs secret ((loggableHeaderOld h).flatMap fun kv => kv.2).flatten = true ∧
+      isCred (str "Trailer:Set-Cookie") = true ∧
+      loggableHeader h false = [(str "Trailer:Set-Cookie", [str "REDACTED"])] :=
   ⟨[(str "Trailer:Set-Cookie", [str "sid=" ++ wTok])], wTok, by decide⟩
 
 end CaddyModel.C20
